@@ -1,5 +1,13 @@
 package main
 
+import (
+	"fmt"
+	"os"
+	"path/filepath"
+	"strings"
+	"time"
+)
+
 type BoundedResult struct {
 	OK    bool
 	Known bool
@@ -7,9 +15,107 @@ type BoundedResult struct {
 	Info  map[string]interface{}
 }
 
-func runBounded(v *Verifier, root, repo, prop, name, tier string, seed int) BoundedResult {
-	return BoundedResult{OK: true, Info: map[string]interface{}{"name": name, "note": "not implemented"}}
+// BoundedSpec (scope file): a bounded-exhaustive check of real functions against the executable form of their
+// contract clause; a STAND-IN where the deductive engine cannot reach (string content inside loops). It is labelled
+// bounded in the evidence and never counted among the proved obligations.
+type BoundedSpec struct {
+	Name string `json:"name"`
+	File string `json:"file"` // test source in /verif/replaygen, injected into the package through go test -overlay
+	Pkg  string `json:"pkg"`
+	Test string `json:"test"`
+	What string `json:"what"`
 }
 
-func (v *Verifier) lemmaObligations(prop string) []*Obligation { return nil }
+func runBounded(v *Verifier, root, repo, prop string, b BoundedSpec, tier string, seed int) BoundedResult {
+	t0 := time.Now()
+	env := []string{"VERIF_TIER=" + tier, fmt.Sprintf("VERIF_SEED=%d", seed), "VERIF_BOUNDED=1"}
+	timeout := 120 * time.Second
+	if tier == "thorough" {
+		timeout = 900 * time.Second
+	}
+	_, out := runHarnessX(repo, root, b.File, b.Pkg, b.Test, env, timeout, nil)
+	info := map[string]interface{}{"name": b.Name, "kind": "bounded stand-in (exhaustive up to the stated bound; NOT a proof)", "what": b.What,
+		"harness": "replaygen/" + b.File, "package": b.Pkg, "test": b.Test}
+	var checks []map[string]interface{}
+	var viol []string
+	cases := 0
+	for _, l := range strings.Split(out, "\n") {
+		l = strings.TrimSpace(l)
+		if strings.HasPrefix(l, "BOUNDED-VIOLATION ") {
+			viol = append(viol, strings.TrimPrefix(l, "BOUNDED-VIOLATION "))
+		} else if strings.HasPrefix(l, "BOUNDED ") {
+			f := map[string]interface{}{}
+			rest := strings.TrimPrefix(l, "BOUNDED ")
+			if k := strings.Index(rest, " bound="); k >= 0 {
+				f["bound"] = rest[k+len(" bound="):]
+				rest = rest[:k]
+			}
+			for _, kv := range strings.Fields(rest) {
+				if i := strings.Index(kv, "="); i > 0 {
+					f[kv[:i]] = kv[i+1:]
+					if kv[:i] == "cases" {
+						var n int
+						fmt.Sscan(kv[i+1:], &n)
+						cases += n
+					}
+				}
+			}
+			checks = append(checks, f)
+		}
+	}
+	info["checks"] = checks
+	info["cases"] = cases
+	info["wall_s"] = time.Since(t0).Seconds()
+	res := BoundedResult{OK: true, Info: info}
+	ran := strings.Contains(out, "\nok ") || strings.HasPrefix(out, "ok ") || strings.Contains(out, "--- PASS") || strings.Contains(out, "PASS")
+	if len(viol) > 0 || !ran || cases == 0 {
+		res.OK = false
+		dir := filepath.Join(root, "replays", prop)
+		os.MkdirAll(dir, 0755)
+		path := filepath.Join(dir, "bounded_"+sanitize(b.Name)+".replay.txt")
+		var sb strings.Builder
+		fmt.Fprintf(&sb, "property: %s\nbounded stand-in: %s\nwhat: %s\nharness: %s (package %s, test %s), run through go test -overlay against %s\n\n", prop, b.Name, b.What, b.File, b.Pkg, b.Test, repo)
+		if len(viol) > 0 {
+			fmt.Fprintf(&sb, "failing inputs on the real code (first %d):\n", len(viol))
+			for _, x := range viol {
+				sb.WriteString("  " + x + "\n")
+			}
+			res.Lines = append(res.Lines, fmt.Sprintf("FAILED-BOUNDED %s: %s", b.Name, viol[0]))
+			res.Lines = append(res.Lines, fmt.Sprintf("VIOLATION property=%s replay=%s", prop, path))
+		} else {
+			fmt.Fprintf(&sb, "the harness did not complete (compile error, panic or timeout); output tail:\n%s\n", lastLines(out, 25))
+			res.Lines = append(res.Lines, fmt.Sprintf("FAILED-BOUNDED %s: harness did not complete: %s", b.Name, firstLines(lastLines(out, 6), 6)))
+			res.Lines = append(res.Lines, fmt.Sprintf("VIOLATION property=%s replay=%s no-failing-input-found", prop, path))
+		}
+		os.WriteFile(path, []byte(sb.String()), 0644)
+		info["violations"] = viol
+	}
+	return res
+}
+
+// lemmaObligations: closed formulas over spec functions (`//@ lemma [Cxx name] formula`), proved on their own.
+func (v *Verifier) lemmaObligations(prop string) []*Obligation {
+	var out []*Obligation
+	for _, l := range v.ct.Lemmas {
+		if !hasProp(l.Props, prop) {
+			continue
+		}
+		e := &enc{v: v, te: v.te, name: "lemma", declared: map[string]bool{}, state: map[string]string{}, sorts: v.sorts, vers: map[string]int{},
+			declSeq: map[string]int{}, allocd: map[string]bool{}, safeOrd: map[string]int{}}
+		e.curReach = "true"
+		e.initSt = map[string]string{}
+		env := &Env{vars: map[string]Val{}, cur: e.state, e: e}
+		g := e.trBool(l.E, env, "lemma "+l.Label)
+		for _, m := range e.errs {
+			out = append(out, &Obligation{Name: "unsupported/lemma/" + sanitize(clauseName(l)), Kind: "unsupported", Props: l.Props, Src: m, Result: &SolverResult{Status: "unsupported", Output: m}})
+		}
+		if len(e.errs) > 0 {
+			continue
+		}
+		o := &Obligation{Name: "lemma/" + clauseName(l), Func: "lemma", Kind: "lemma", Label: clauseName(l), Props: l.Props, Src: l.Src, nBody: 0, Goal: g, enc: e,
+			Pos: fmt.Sprintf("%s:%d", strings.TrimPrefix(l.File, v.repo+"/"), l.Line)}
+		out = append(out, o)
+	}
+	return out
+}
 
